@@ -467,6 +467,14 @@ func (r *Report) writeEvidence(verif, prop, tier string, seed, violations int, k
 		"wall_s":      r.Wall,
 		"violations":  violations,
 	}
+	// obligations proved on this run but not pinned (see DESIGN.md 11.7)
+	var unpinned []string
+	for _, n := range loadExpected(verif)[prop] {
+		if strings.HasPrefix(n, "~") {
+			unpinned = append(unpinned, n[1:])
+		}
+	}
+	cov["unpinned_obligations"] = unpinned
 	if extra := loadPropNotes(verif, prop); extra != nil {
 		for k, v := range extra {
 			cov[k] = v
